@@ -172,6 +172,49 @@ def check_c06(case):
     return ('fail' if out else 'ok'), out
 
 
+@st.composite
+def addpath_case(draw):
+    """ADD-PATH encoding (Update.construct(..., addpath=True)): every entry is a path identifier followed by the prefix; an
+    entry without a usable identifier is refused"""
+    pid = st.one_of(st.sampled_from([0, 0, 1, 255, 256, 2 ** 31, 2 ** 32 - 1]), vs.u32)
+    entry = st.one_of(st.fixed_dictionaries({'prefix': vs.prefix4(), 'path_id': pid}),
+                      st.fixed_dictionaries({'prefix': vs.prefix4(), 'path_id': pid}),
+                      st.fixed_dictionaries({'prefix': vs.prefix4()}),                          # identifier missing
+                      st.fixed_dictionaries({'prefix': vs.prefix4(), 'path_id': st.none()}))
+    where = draw(st.sampled_from(['nlri', 'withdraw', 'both']))
+    case = {'nlri': [], 'withdraw': []}
+    if where in ('nlri', 'both'):
+        case['nlri'] = draw(st.lists(entry, min_size=1, max_size=4))
+    if where in ('withdraw', 'both'):
+        case['withdraw'] = draw(st.lists(entry, min_size=1, max_size=4))
+    return case
+
+
+def check_addpath(case):
+    msg = {'attr': ({1: 0, 2: [(2, [65001])], 3: '10.0.0.1'} if case['nlri'] else {}), 'nlri': list(case['nlri']),
+           'withdraw': list(case['withdraw'])}
+    try:
+        raw = Update.construct(msg, True, True)
+    except Exception as e:      # refused: fine
+        return 'rejected:' + type(e).__name__, []
+    if not isinstance(raw, (bytes, bytearray)):
+        return 'rejected:no-bytes', []
+    try:
+        frames = rc.split_frames(bytes(raw))
+        assert len(frames) == 1 and frames[0][0] == rc.UPDATE
+        wd, attrs, nlri = rc.split_update(frames[0][1])
+        got_w = rc.split_prefixes(wd, 32, addpath=True)
+        got_n = rc.split_prefixes(nlri, 32, addpath=True)
+    except (rc.WalkError, AssertionError) as e:
+        return 'fail', [('addpath:malformed:%s' % _generalise(str(e)), '%s in %s' % (e, bytes(raw).hex()[:300]))]
+    out = []
+    for name, got, given in (('nlri', got_n, case['nlri']), ('withdraw', got_w, case['withdraw'])):
+        want = [(e.get('path_id'), plen(e['prefix'])) for e in given]
+        if [(p, l) for p, l, _ in got] != want:
+            out.append(('addpath:skeleton:%s' % name, 'on the wire %r, given %r' % ([(p, l) for p, l, _ in got], want)))
+    return ('fail' if out else 'ok'), out
+
+
 BAD_PREFIXES = ['2001:db8::/32', '2001:db8::/64', '::/0', '::1/128', 'fe80::/10', '2001:db8:1:2::/25', '10.0.0.0/33', '10.0.0.0/-1',
                 '256.1.1.1/8', '10.0.0.0', '', 'abc/8', '10.0.0.0/8/9', ' 10.0.0.0/8', '10.0.0.0/08', '0x0a000000/8', '10.0.0.0/255.0.0.0']
 
@@ -435,6 +478,7 @@ session_case = st.fixed_dictionaries({
 KINDS = {
     'c06': (lambda: c06.update_case(), check_c06),
     'invalid-prefix': (lambda: invalid_prefix_case(), check_invalid_prefix),
+    'addpath': (lambda: addpath_case(), check_addpath),
     'srte': (lambda: srte_case, check_srte),
     'pmsi': (lambda: pmsi_case, check_pmsi),
     'fs6': (lambda: fs6_case, check_fs6),
